@@ -252,6 +252,8 @@ def load(repo=REPO, profile="dev", force=False):
     if len(doc["fns"]) < 900:
         raise RuntimeError("fact file has only %d bodies (floor 900): extraction incomplete" % len(doc["fns"]))
     fx = Facts(doc, key)
+    import mir
+    mir.compute_transparent(fx.fns)
     fx.built = built
     fx.profile = profile
     fx.load_s = time.time() - t0
